@@ -115,6 +115,7 @@ structure Snap where
 structure Claim where
   idx : Nat
   term : Nat
+  cterm : Nat := 0   -- the term of the node that released the evidence
   deriving DecidableEq, Repr
 
 /-- a (joint) voter configuration -/
@@ -367,10 +368,11 @@ def applyEvent (s : PSys) : Event → Except String PSys
     else .error "commitHB: commit index not covered by a released heartbeat of this term"
   | .commitClaim i m =>
     let n := s.nodes i
-    if n.up ∧ s.claims.contains m ∧ n.commit < m.idx ∧ m.idx ≤ n.log.length ∧
-        termAt n.log m.idx = m.term then
+    -- evidence released by a node whose own term is not beyond ours (`m.cterm` of the event is ignored)
+    if n.up ∧ s.claims.any (fun c => c.idx = m.idx ∧ c.term = m.term ∧ c.cterm ≤ n.term) ∧ n.commit < m.idx ∧
+        m.idx ≤ n.log.length ∧ termAt n.log m.idx = m.term then
       ok { s with nodes := upd s.nodes i { n with commit := m.idx } }
-    else .error "commitClaim: no released (index, term) evidence matching the local log"
+    else .error "commitClaim: no released (index, term) evidence from a term not beyond ours matching the local log"
   | .sendHB i to c =>
     let n := s.nodes i
     if n.up ∧ n.role = 2 ∧ c ≤ n.commit ∧
@@ -380,7 +382,7 @@ def applyEvent (s : PSys) : Event → Except String PSys
   | .claim i idx =>
     let n := s.nodes i
     if n.up ∧ idx ≤ n.commit ∧ idx ≤ n.log.length then
-      ok { s with claims := ⟨idx, termAt n.log idx⟩ :: s.claims }
+      ok { s with claims := ⟨idx, termAt n.log idx, n.term⟩ :: s.claims }
     else .error "claim: advertised commit above the node's own"
   | .sendSnap i idx =>
     let n := s.nodes i
